@@ -129,6 +129,17 @@ CHECKS = {
             'non-contiguous views (reorder_pops transposes, Fortran order, strided and reversed slices) are included.',
             'Labels without double quotes/newlines, comments without newlines (not representable in the format); scratch files under /verif/.scratch.',
             'DESIGN.md §3 C14'),
+    'C19': ('model_checking',
+            'exhaustive monomial basis x parameter-regime lattice x step sizes against exact derivatives; closed-form information matrices on an eps ladder; all bootstrap permutations; explicit-state enumeration of all call sequences over the shared cache up to a depth bound',
+            'get_hess and get_grad (linear in the function) are applied to every monomial of degree <=2 in 1-5 variables at every point of the '
+            'p0 lattice {-2,0,1e-9,3e-5,0.7,40}^k (complete for k<=3, covering set for k=4,5) and three step sizes, so every combination of '
+            'central / one-sided / zero-parameter stencils is exercised and compared with the exact derivative. FIM and GIM matrices, LRT '
+            'adjustment, Wald and score statistics are compared with closed forms from analytic model derivatives (linear, curved and '
+            'scale-free Poisson models, multinom and log variants) with the error required to contract at second order in eps; all 24 orderings '
+            'of 4 bootstraps; sum_chi2_ppf on 8 input forms x 5 weight vectors; every sequence of <=2 (thorough 3) calls from a 10-symbol '
+            'alphabet sharing Godambe.cache must reproduce the fresh-state value of each call.',
+            'Models with an overall scale parameter are degenerate under multinom and excluded there; permutation tolerance scales with cond(J).',
+            'DESIGN.md §3 C19'),
 }
 
 NOT_YET = {}
